@@ -288,8 +288,47 @@ class Parser:
             self.next()
             self.expect(';')
             return ('break',)
-        if k == 'id' and v in ('for', 'while', 'switch'):
-            raise Unsupported('statement ' + v)
+        if k == 'id' and v == 'continue':
+            self.next()
+            self.expect(';')
+            return ('continue',)
+        if k == 'id' and v == 'while':
+            self.next()
+            self.expect('(')
+            c = self.parse_expr()
+            self.expect(')')
+            return ('for', None, c, None, self.parse_stmt())
+        if k == 'id' and v == 'for':
+            self.next()
+            self.expect('(')
+            init = None
+            if self.peek() == ('op', ';'):
+                self.next()
+            else:
+                init = self.parse_stmt()          # a declaration or an expression statement, consumes the ';'
+            c = None if self.peek() == ('op', ';') else self.parse_expr()
+            self.expect(';')
+            step = None if self.peek() == ('op', ')') else self.parse_expr()
+            self.expect(')')
+            return ('for', init, c, step, self.parse_stmt())
+        if k == 'id' and v == 'switch':
+            self.next()
+            self.expect('(')
+            c = self.parse_expr()
+            self.expect(')')
+            body = self.parse_stmt()
+            if body[0] != 'block':
+                raise Unsupported('switch without a block')
+            return ('switch', c, body[1])
+        if k == 'id' and v == 'case':
+            self.next()
+            e = self.parse_cond()
+            self.expect(':')
+            return ('case', e)
+        if k == 'id' and v == 'default' and self.peek(1) == ('op', ':'):
+            self.next()
+            self.next()
+            return ('default',)
         if k == 'id' and self.peek(1) == ('op', ':') and not self.is_type_start():
             self.next()
             self.next()
